@@ -131,3 +131,47 @@ def run_cp(case: dict, d: str, zero_weight_env: bool = False) -> Dict[str, Any]:
             res["all_zero_weights"] = bool(len(ws) == 0 or all(w == 0 for w in ws))
             res["n_graph_edges"] = len(ws)
         return res, ta, None
+
+
+def dump_host_traversal(ta, rank) -> List[List[List[int]]]:
+    """the depth-first traversal the graph builder performs over every host thread's call stack, recorded with the implementation's
+    own CallStackGraph.dfs_traverse: per thread a list of [is_enter, event id, call-stack parent]"""
+    from hta.common.call_stack import CallGraph, DeviceType
+    cg = CallGraph(ta.t, ranks=[rank])
+    threads = []
+    for csg in cg.call_stacks:
+        if csg.device_type != DeviceType.CPU:
+            continue
+        acts: List[List[int]] = []
+        csg.dfs_traverse(lambda i, n: acts.append([1, int(i), int(n.parent)]), lambda i, n: acts.append([0, int(i), int(n.parent)]))
+        threads.append([a for a in acts if a[1] >= 0])
+    return threads
+
+
+def host_model_inputs(res: Dict[str, Any]):
+    """per host thread: (event table rows [id, ts, end, analysed, blocking, parent], actions [is_enter, id]) for coq/model/C08_Host.v,
+    and the implementation's host-to-host edges in the model's encoding"""
+    rows = {r["idx"]: r for r in res["rows"]}
+    g = res["graph"]
+    start_node = {ev: n for n, ev, _ts, st, _b in [(x[0], x[1], x[2], x[3], x[4]) for x in g["nodes"]] if st}
+    node = {x[0]: x for x in g["nodes"]}
+    block = {x[1]: bool(x[4]) for x in g["nodes"] if x[3]}
+    threads = []
+    for acts in res["traversal"]:
+        tab = []
+        seen = set()
+        for ent, i, par in acts:
+            if i in seen:
+                continue
+            seen.add(i)
+            r = rows[i]
+            tab.append([i, r["ts"], r["ts"] + r["dur"], i in start_node, block.get(i, False), par])
+        threads.append((tab, [[a[0], a[1]] for a in acts]))
+    attrib = {(u, v): ev for u, v, ev in g["attrib"]}
+    ty = {"OPERATOR_KERNEL": 0, "DEPENDENCY": 1, "KERNEL_LAUNCH_DELAY": 2, "KERNEL_KERNEL_DELAY": 3, "SYNC_DEPENDENCY": 4}
+    impl_edges = []
+    for u, v, w, _wa, t, be in g["edges"]:
+        nu, nv = node[be[0]], node[be[1]]
+        if rows[nu[1]]["stream"] == -1 and rows[nv[1]]["stream"] == -1:
+            impl_edges.append([nu[1], 1 if nu[3] else 0, nv[1], 1 if nv[3] else 0, w, ty[t], attrib.get((be[0], be[1]), -2)])
+    return threads, sorted(impl_edges)
